@@ -658,7 +658,7 @@ Lemma netmach_refuted_lemma :
 Proof.
   split.
   - exists [0; 0; 1]. vm_compute. reflexivity.
-  - exists [0; 0; 0; 0; 0; 0; 0; 0; 0; 0; 0; 0; 0; 1; 1; 1; 1; 1]. vm_compute. reflexivity.
+  - exists [0; 0; 0; 0; 0; 0; 0; 0; 0; 0; 0; 0; 1; 1; 1; 1; 1]. vm_compute. reflexivity.
 Qed.
 
 (* the model does block: two exclusive sections never overlap *)
